@@ -780,7 +780,7 @@ def run(ctx):
     #     exporters read header material that every edit path must have registered; oracle only (the header then also lists the
     #     placeholders' definitions, which the model of `add`-built circuits does not contain — not a property matter)
     n0 = res.evaluations
-    for hist in ("replace", "insert"):
+    for hist in ("replace", "insert", "insert-mid"):
         for (ne, np_, nc, adds) in ([(1, 1, 1, list(w)) for n in (1, 2) for w in itertools.product(al, repeat=n)]
                                      + random_specs(rng, 120 if q else 1500, lambda r: (r.randrange(1, 4), r.randrange(1, 4), r.randrange(1, 3),
                                                                                      r.randrange(1, 12)))):
